@@ -168,7 +168,7 @@ class C18(Prop):
         try:
             prog2 = pickle.loads(pickle.dumps(prog))
             compare(prog2(**kw), "pickled")
-        except Violation:
+        except (Violation, MemoryError, RecursionError):
             raise
         except Exception as ex:
             raise Violation("pickle-round-trip-failed", f"{type(ex).__name__}: {ex}: {self.describe(case)}")
